@@ -94,6 +94,13 @@ MUTANTS = [
  ("c35-abort-ignored", ["C35"], L+"client/transport/core.rs", "                let message_state = self.message_states.remove(&req_id).unwrap();\n                let _ = message_state\n                    .callback\n                    .send(Err(StatusCode::BadCommunicationError));", "                let _ = req_id;"),
  ("c38-write-locks-swapped", ["C38"], L+"server/services/attribute.rs", "            let session = trace_read_lock!(session);\n            let mut address_space = trace_write_lock!(address_space);", "            let mut address_space = trace_write_lock!(address_space);\n            let session = trace_read_lock!(session);"),
  ("c38-browse-locks-swapped", ["C38"], L+"server/services/view.rs", "            let mut session = trace_write_lock!(session);\n            let address_space = trace_read_lock!(address_space);\n\n            let view", "            let address_space = trace_read_lock!(address_space);\n            let mut session = trace_write_lock!(session);\n\n            let view"),
+ ("c36-ack-keepalives", ["C36"], L+"client/session/services/subscriptions/state.rs", "        if !is_keep_alive {\n            self.add_acknowledgement(subscription_id, notification.sequence_number);\n        }", "        let _ = is_keep_alive;\n        self.add_acknowledgement(subscription_id, notification.sequence_number);"),
+ ("c36-failed-acks-dropped", ["C36"], L+"client/session/services/subscriptions/service.rs", "        if let Some(acks) = acks {\n            let mut subscription_state = trace_lock!(self.subscription_state);\n            subscription_state.re_queue_acknowledgements(acks);\n        }", "        let _ = acks;"),
+ ("c36-acks-not-taken", ["C36"], L+"client/session/services/subscriptions/state.rs", "        std::mem::take(&mut self.acknowledgements)", "        self.acknowledgements.clone()"),
+ ("c14-client-token-installed-late", ["C14"], L+"client/transport/core.rs", "                if let SupportedMessage::OpenSecureChannelResponse(ref response) = message {\n                    self.install_security_token(response)?;\n                }", "                if let SupportedMessage::OpenSecureChannelResponse(ref _response) = message {}"),
+ ("c35-deadline-not-enforced-by-caller", ["C35"], L+"client/transport/state.rs", "        match tokio::time::timeout(remaining, cb_recv).await {", "        match tokio::time::timeout(remaining + Duration::from_secs(3600), cb_recv).await {"),
+ ("c02-diagnostic-info-depth-unchecked", ["C02"], L+"types/diagnostic_info.rs", "            let _depth_lock = decoding_options.depth_lock()?;\n            diagnostic_info.inner_diagnostic_info =", "            diagnostic_info.inner_diagnostic_info ="),
+ ("c02-string-length-unchecked", ["C02"], L+"types/string.rs", "        } else if len as usize > decoding_options.max_string_length {\n            error!(\n                \"String buf length {} exceeds decoding limit {}\",", "        } else if false && len as usize > decoding_options.max_string_length {\n            error!(\n                \"String buf length {} exceeds decoding limit {}\","),
  ("c09-remove-size-check", ["C09"], L+"core/comms/secure_channel.rs", "            if message_size < encrypted_data_offset + signature_size {", "            if false && message_size < encrypted_data_offset + signature_size {"),
 ]
 
